@@ -26,6 +26,34 @@ theorem dispatch_eq (s : St) (h : s.backends ≠ []) :
   have hn : s.backends.length ≠ 0 := by simpa [List.length_eq_zero_iff] using h
   simp [dispatch, nextIndex, getBackend, hn]
 
+/-- **Two consecutive dispatches over two or more backends never reach the same backend** (no change
+of the backend set in between). This is what makes the `destdiffers` oracle of the pipeline and wire
+stages sound: requests that are bound to no backend are load-balanced, so two of them in a row go to
+two different backends; the same destination twice means a binding is being honoured. -/
+theorem C05_consecutive_distinct (s : St) (hnd : s.backends.Nodup) (h2 : 2 ≤ s.backends.length) :
+    (dispatch s).2 ≠ (dispatch (dispatch s).1).2 := by
+  have hne : s.backends ≠ [] := by intro e; rw [e] at h2; simp at h2
+  rw [dispatch_eq s hne]
+  have hne' : ({ s with index := (s.index + 1) % s.backends.length } : St).backends ≠ [] := hne
+  rw [dispatch_eq _ hne']
+  simp only
+  have hlt1 : (s.index + 1) % s.backends.length < s.backends.length := Nat.mod_lt _ (by omega)
+  have hlt2 : ((s.index + 1) % s.backends.length + 1) % s.backends.length < s.backends.length :=
+    Nat.mod_lt _ (by omega)
+  rw [List.getElem?_eq_getElem hlt1, List.getElem?_eq_getElem hlt2]
+  intro he
+  simp only [Option.some.injEq] at he
+  have hidx := (List.Nodup.getElem_inj_iff hnd).mp he
+  clear he
+  -- i and (i + 1) % n differ when n ≥ 2
+  have key : ∀ i n : Nat, 2 ≤ n → i < n → i ≠ (i + 1) % n := by
+    intro i n hn hi
+    by_cases h1 : i + 1 < n
+    · rw [Nat.mod_eq_of_lt h1]; omega
+    · have : i + 1 = n := by omega
+      rw [this, Nat.mod_self]; omega
+  exact key _ _ h2 hlt1 hidx
+
 /-- A dispatch always goes to a backend registered at that moment. -/
 theorem C05_member (s s' : St) (a : Addr) (h : dispatch s = (s', some a)) : a ∈ s.backends := by
   by_cases hb : s.backends = []
